@@ -35,6 +35,8 @@ CTexts   == ToSet(C.texts)
 CValid   == ToSet(C.valid)
 CHashOf  == C.hashOf
 CWrong   == ToSet(C.wrong)
+CAlt     == ToSet(C.alt)
+CCanon   == C.canon
 CMal     == ToSet(C.malKinds)
 CMalH    == ToSet(C.malWithHash)
 CBadVers == ToSet(C.badVers)
